@@ -144,6 +144,12 @@ func normaliseSources(repoDir string, env []string, buildFlags []string) (map[st
 		}
 		np, err := recheck(orig, overlay)
 		if err != nil {
+			if dumpNormalised != "" {
+				for path, src := range overlay {
+					_ = os.MkdirAll(dumpNormalised, 0o755)
+					_ = os.WriteFile(dumpNormalised+"/"+filepath.Base(path)+".failed", src, 0o644)
+				}
+			}
 			return nil, rep, fmt.Errorf("the normalised package does not type-check: %w", err)
 		}
 		cur = np
@@ -430,6 +436,20 @@ func normaliseRound(repoDir string, orig, cur *packages.Package, overlay map[str
 		if n > 0 && in.keptN[obj] == 0 && in.cand[obj] {
 			fd := in.decls[obj]
 			f := in.fileOf[fd]
+			// a call that was never offered to the inliner (not hoistable, or inside a copied
+			// body, which carries no type information) still needs the declaration
+			stillNamed := false
+			for _, g := range pkg.Syntax {
+				ast.Inspect(g, func(m ast.Node) bool {
+					if id, ok := m.(*ast.Ident); ok && id.Name == fd.Name.Name && id != fd.Name {
+						stillNamed = true
+					}
+					return !stillNamed
+				})
+			}
+			if stillNamed {
+				continue
+			}
 			for i, d := range f.Decls {
 				if d == ast.Decl(fd) {
 					f.Decls = append(f.Decls[:i:i], f.Decls[i+1:]...)
@@ -805,6 +825,15 @@ func (in *inliner) again(stmts []ast.Stmt, owner *ast.FuncDecl, depth int) []ast
 	for _, s := range stmts {
 		if as, ok := s.(*ast.AssignStmt); ok && len(as.Rhs) == 1 {
 			if ce, ok := as.Rhs[0].(*ast.CallExpr); ok && in.candidateCallee(ce) != nil {
+				out = append(out, in.rewriteStmt(s, owner, depth+1)...)
+				continue
+			}
+		}
+		// a statement that still holds a candidate call after one was hoisted out of it
+		// (`return h(a) + "." + h(b)`): hoist the next one
+		switch s.(type) {
+		case *ast.AssignStmt, *ast.ReturnStmt, *ast.ExprStmt, *ast.DeclStmt:
+			if depth < 6 && in.stmtHasCandidate(s) {
 				out = append(out, in.rewriteStmt(s, owner, depth+1)...)
 				continue
 			}
